@@ -20,7 +20,7 @@ CHECKS = {
             "Same engine as C17 with a life-cycle model per allocation: forward-only state sequence, exactly-once announcements, exact connected-worker set while running, normal finish exactly when the number of distinct lost workers reaches the target, unknown allocations change nothing, queue removal cancels each active allocation once and forgets everything.",
             "allocations that saw a loss while queued or a status error are excluded from the comparison with the life-cycle model (statement silent / the number of status errors after which an allocation is given up is not fixed by the statement); monotonicity and exactly-once announcements are still checked for them, and status-error streaks of 11-26 updates are generated", "5/C18"),
     "C19": ("STREAM", "exploration", "round-trip property-based testing: real stream writers -> files (interleaved, several writers, torn) -> real OutputLog reader",
-            "Several real StreamerRef writers write generated chunk sequences of several tasks and instances into one directory, interleaved by a generated schedule; crashed writers lose their tail (file cut at a generated offset); cat (both channels), export and summary of the real reader are compared with what the last execution of every task that ended on a live writer wrote.",
+            "Several real StreamerRef writers (1-4, in one case of seven 17-22: more files than the reader keeps open) write generated chunk sequences of several tasks and instances into one directory, interleaved by a generated schedule; crashed writers lose their tail (file cut at a generated offset); cat (both channels), export and summary of the real reader are compared with what the last execution of every task that ended on a live writer wrote.",
             "pipes of real child processes are replaced by send_data calls with the chunking of resend_stdio", "5/C19"),
     "C20": ("AUTH", "exploration", "property-based testing with a generated man-in-the-middle and a provenance-based reference model of acceptance",
             "Three honest do_authentication endpoints over in-memory duplex streams, an earlier clean session for replays, and an adversary that forwards/drops/reflects/replays/splices/edits each of the handshake messages; an endpoint must accept iff it received a request with its protocol, expected peer role and compatible mode and a response that is NoAuth (no key) or byte-identical to a proof produced by an honest holder of the same key with the expected role for this connection's challenge; sealed messages must round-trip after a clean handshake.",
@@ -50,7 +50,7 @@ CHECKS = {
             "Cancels at every point relative to in-flight messages; checks on events, launcher (stop signal on delivery, no start after the worker processed the cancel, backlog included), scheduler snapshot (no dangling reference, exact reservations) and idempotence.",
             "as C01", "5/C08"),
     "C09": ("SIM", "exploration", "bounded exhaustive enumeration of small scenarios + stateful property-based testing / fuzzing of message schedules, with catch_unwind + panic hook as oracle",
-            "Bounded exhaustive enumeration of 16 small scenarios (all interleavings of deliveries, scheduler rounds, task ends and a bounded number of losses / cancels / failures up to a depth bound, visited-state pruning) followed by a uniformly weighted chaos profile over all actions including every client request type; any panic in repository code (also inside spawned worker futures) is a violation.",
+            "Bounded exhaustive enumeration of 16 small scenarios (all interleavings of deliveries, scheduler rounds, task ends and a bounded number of losses / cancels / failures up to a depth bound, visited-state pruning) followed by a uniformly weighted chaos profile over all actions including every client request type and the scheduler query of the autoalloc tick (ServerRef::new_worker_query with 1-3 generated queue descriptions), 4 of 10 histories from the profiles of the other checks; any panic in repository code (also inside spawned worker futures) is a violation.",
             "correctly behaving workers only; harness panics are reported as inconclusive", "5/C09"),
     "C10": ("RESTORE", "fault_enumeration", "crash-point enumeration over generated journals (stateful property-based testing produces the journals) with an independent reference fold as oracle",
             "Journals are produced by SIM histories through the real journal process; every record boundary (and 8 interior offsets) is a crash point; the real restore runs on every prefix and is compared with a reference fold of the recorded events: startup succeeds, jobs/open flag/task sets/outcomes/counters, pending tasks exactly once with remaining dependencies, exact truncation of a torn tail, re-opened journal well formed; one restored server per case is continued to completion (every unfinished task runs exactly once).",
